@@ -89,6 +89,13 @@ def derived_cases(rng, m, ctx):
             stored = [plo, int(rng.integers(plo, T))]
             a.set_prange(list(stored))
         given = [lo, hi]                   # the caller's own list, handed to both calls
+        # history: the same list (and the stored range) served a DERIVED correlator first, one that is undefined on more timeslices - the range a
+        # caller asks for is the range that is averaged, whatever other correlator was looked at through the same list before
+        _call(lambda: a.deriv('symmetric').plateau(given, method='avg'))
+        if stored:
+            with np.errstate(all='ignore'):
+                _call(lambda: np.log(a).plateau(method='avg'))
+                _call(lambda: (1.0 * a).deriv('symmetric').plateau(method='avg'))
         for method in ('fit', 'avg'):
             r = _call(lambda: a.plateau(given, method=method))
             cases.append({'id': '%s-plateau-%s-%d-%d-%s%s' % (m['id'], method, lo, hi, kind, '-stored' if stored else ''), 'ev': 'derived', 'what': 'plateau',
